@@ -294,6 +294,16 @@ func genSW(curveNames []string, ops []string, compiledPct int) *rapid.Generator[
 		for i := 0; i < ns; i++ {
 			c.Scalars = append(c.Scalars, genScalar(cv, t, fmt.Sprintf("s%d", i)))
 		}
+		// yield: operands outside the documented domain of an incomplete method are
+		// moved to the complete variant (where they are asserted) most of the time
+		if _, inDomain, _ := reference(&c); !inDomain && rapid.IntRange(0, 9).Draw(t, "keep-out-of-domain") != 0 {
+			switch c.Op {
+			case opAdd:
+				c.Op = opAddU
+			case opMul, opMulBase, opJoint, opMSM, opFold:
+				c.Complete = true
+			}
+		}
 		c.Wrong = rapid.SampledFrom([]string{"", "", "neg", "addG", "inf"}).Draw(t, "wrong")
 		c.Compiled = rapid.IntRange(0, 99).Draw(t, "compiled") < compiledPct
 		return c
